@@ -941,6 +941,11 @@ impl Xot {
         if !self.text_consolidation {
             return false;
         }
+        // the node may already be in the requested position; it is never
+        // consolidated with itself
+        if prev_node == Some(node) || next_node == Some(node) {
+            return false;
+        }
         let added_text = if let Value::Text(t) = self.value(node) {
             Some(t.get().to_string())
         } else {
